@@ -61,6 +61,9 @@ func c07Target(cfg verifh.Cfg) verifc07.Target {
 					if e != nil {
 						return nil, e
 					}
+					if x == nil {
+						return nil, nil
+					}
 					return x.(io.Closer), nil
 				})
 				if r != nil {
